@@ -745,7 +745,11 @@ pub struct History {
 fn history() -> BoxedStrategy<History> {
     let start = prop_oneof![2 => Just(Start::Empty), 2 => (0u8..3).prop_map(Start::Constructor), 3 => gen::w_msg_small().prop_map(Start::Parsed)];
     let name = proptest::sample::select(vec!["a", "b", "c", "job-id", "copies", "printer-uri", "x-y", "A", "Job-Id", "COPIES", "\u{e9}", "\u{c9}"]).prop_map(|s| s.to_string());
-    (start, proptest::collection::vec((gen::group_tag(), name, gen::m_value(1, false)), 0..40)).prop_map(|(start, ops)| History { start, ops }).boxed()
+    // group values >= 0x80 are structural edits through groups_mut() between the additions:
+    // 0x80 remove a group, 0x81 reverse the list, 0x82 swap the first and the last group, 0x83 append an
+    // empty group of the first group's kind
+    let group = prop_oneof![12 => gen::group_tag(), 1 => Just(0x80u8), 1 => Just(0x81u8), 1 => Just(0x82u8), 1 => Just(0x83u8)];
+    (start, proptest::collection::vec((group, name, gen::m_value(1, false)), 0..40)).prop_map(|(start, ops)| History { start, ops }).boxed()
 }
 
 fn history_json(h: &History) -> Value {
@@ -817,8 +821,38 @@ pub fn judge_c19(h: &History, pr: &Probe) -> Judge {
     let repeated_kind = |m: &ModelGroups, k: u8| m.iter().filter(|g| g.0 == k).count() >= 2;
     let mut saw_replace = false;
     let mut saw_add_to_repeated = false;
+    let mut saw_structural = false;
     compare_container("initial state", &attrs, &model)?;
     for (i, (g, n, v)) in h.ops.iter().enumerate() {
+        if *g >= 0x80 {
+            // a structural edit through the public list of groups; the model is the same list
+            match *g {
+                0x80 if !model.is_empty() => {
+                    let k = n.len() % model.len();
+                    model.remove(k);
+                    attrs.groups_mut().remove(k);
+                }
+                0x81 => {
+                    model.reverse();
+                    attrs.groups_mut().reverse();
+                }
+                0x82 if model.len() >= 2 => {
+                    let last = model.len() - 1;
+                    model.swap(0, last);
+                    attrs.groups_mut().swap(0, last);
+                }
+                0x83 if !model.is_empty() => {
+                    let t = model[0].0;
+                    model.push((t, BTreeMap::new()));
+                    attrs.groups_mut().push(IppAttributeGroup::new(delim(t)));
+                }
+                _ => {}
+            }
+            saw_structural = true;
+            pr.extra_eval(1);
+            compare_container(&format!("after step {i}: structural edit {g:#04x} through groups_mut()"), &attrs, &model)?;
+            continue;
+        }
         // model: first group of that kind else push, then replace-by-name
         if repeated_kind(&model, *g) {
             saw_add_to_repeated = true;
@@ -851,6 +885,9 @@ pub fn judge_c19(h: &History, pr: &Probe) -> Judge {
     }
     if saw_add_to_repeated {
         pr.label("add to a repeated kind");
+    }
+    if saw_structural {
+        pr.label("structural edit through groups_mut() between additions");
     }
     let into: ModelGroups = attrs.into_groups().iter().map(|g| (g.tag() as u8, canon_attrs_of_group(g))).collect();
     if into != model {
@@ -994,7 +1031,7 @@ pub fn judge_iter_program(c: &(CValue, Vec<IterOp>), pr: &Probe) -> Judge {
 
 pub fn run_c19(ctx: &Ctx) {
     ctx.enable_traced_pass(4);
-    ctx.set_rule("(a) proptest-generated histories: start state (empty container, a constructor's message, or a parser-produced message that may contain repeated groups) followed by 0-39 add(kind, name, value) operations with names from a small pool (so replacement happens); after EVERY step (one evaluation each) groups(), groups_of(k) for all four kinds and finally into_groups() are compared with an ordered-list-of-groups model. (b) generated values (incl. sets with 0 or 1 element whose element is itself a set or collection): traversal yields set elements in order / collection member values in byte-lexicographic member-name order / the value itself once, then None on three further calls; and the same iterator driven through a generated program of 1-6 std iterator calls (next, nth(k), by_ref().skip(k).next(), take(k), step_by(k)) must yield what a slice iterator over the expected elements yields at every step. Non-trivial = history with a replacement and an add to a kind that occurs twice, or a traversed set/collection with >=2 elements; distinct by hash.");
+    ctx.set_rule("(a) proptest-generated histories: start state (empty container, a constructor's message, or a parser-produced message that may contain repeated groups) followed by 0-39 operations: add(kind, name, value) with names from a small pool (so replacement happens) and, one in four, a structural edit of the public list of groups through groups_mut() (remove a group, reverse, swap first and last, append an empty group); after EVERY step (one evaluation each) groups(), groups_of(k) for all four kinds and finally into_groups() are compared with an ordered-list-of-groups model. (b) generated values (incl. sets with 0 or 1 element whose element is itself a set or collection): traversal yields set elements in order / collection member values in byte-lexicographic member-name order / the value itself once, then None on three further calls; and the same iterator driven through a generated program of 1-6 std iterator calls (next, nth(k), by_ref().skip(k).next(), take(k), step_by(k)) must yield what a slice iterator over the expected elements yields at every step. Non-trivial = history with a replacement and an add to a kind that occurs twice, or a traversed set/collection with >=2 elements; distinct by hash.");
     let (shards, per) = ctx.tier.pick((16, 2000), (16, 40000));
     run_prop(ctx, "add-history", shards, per, history, judge_c19, history_json);
     let (shards, per) = ctx.tier.pick((16, 10000), (16, 150000));
